@@ -70,8 +70,17 @@ Definition arms_ack (sk : skeleton) : bool :=
   forallb (fun a => a_ok_pol a && a_err_pol a && N.eqb (route_code (a_ok a)) (route_code (a_err a))) (sk_arms sk).
 Definition points_complete (sk : skeleton) : bool :=
   sk_points sk && forallb a_points (sk_arms sk).
+(* every message kind except Optimize runs a statement group *)
+Definition arms_fallible (sk : skeleton) : bool :=
+  forallb (fun a => a_fallible a || kind_eqb (a_kind a) KOptimize) (sk_arms sk).
+(* no caller waits for a recompute or an optimize request *)
+Definition arms_routes (sk : skeleton) : bool :=
+  forallb (fun a => match a_kind a with
+                    | KCompute | KOptimize => match a_ok a with RDb | RNone => true | _ => false end
+                    | _ => true
+                    end) (sk_arms sk).
 Definition sk_ok (sk : skeleton) : bool :=
-  shape_ok sk && arms_complete sk && arms_rollback sk && arms_ack sk.
+  shape_ok sk && arms_complete sk && arms_rollback sk && arms_ack sk && arms_fallible sk && arms_routes sk.
 
 (* ------------------------------------------------------------------ data *)
 (* a row is named by (cell, id): the cell is the daily-log cell (room, entity, day) it belongs to,
